@@ -230,10 +230,78 @@ func C10(c *core.Ctx) {
 		}
 		return -1
 	}
+	// the PIT token header has a variable length (a downstream's token is not ours: any
+	// length up to 32 bytes): its reservation must grow with the token that is attached —
+	// an amount that contains len(<the attached value>) plus the type and length octets
+	tokenLenReserve := func() (ssa.Instruction, int64) {
+		var found ssa.Instruction
+		var constPart int64 = -1
+		isTokLen := func(v ssa.Value) bool {
+			l, ok := core.LenOf(core.StripConv(v))
+			if !ok {
+				return false
+			}
+			for _, st := range written["PitToken"] {
+				if core.Same(l, st.(*ssa.Store).Val) || core.Strip(l) == core.Strip(st.(*ssa.Store).Val) {
+					return true
+				}
+			}
+			return false
+		}
+		var tree func(v ssa.Value, d int) (hasLen bool, k int64, encLen bool)
+		tree = func(v ssa.Value, d int) (bool, int64, bool) {
+			v = core.StripConv(v)
+			if d > 6 {
+				return false, 0, false
+			}
+			if isTokLen(v) {
+				return true, 0, false
+			}
+			if kk, isC := core.ConstInt(v); isC {
+				return false, kk, false
+			}
+			if cl, isCall := v.(*ssa.Call); isCall {
+				if id, okID := core.Callee(&cl.Call); okID && id.Name == "EncodingLength" {
+					return false, 0, true
+				}
+			}
+			if b, isB := v.(*ssa.BinOp); isB && b.Op == token.ADD {
+				h1, k1, e1 := tree(b.X, d+1)
+				h2, k2, e2 := tree(b.Y, d+1)
+				return h1 || h2, k1 + k2, e1 || e2
+			}
+			return false, 0, false
+		}
+		core.InstrsDeep(send, func(in ssa.Instruction) {
+			b, ok := in.(*ssa.BinOp)
+			if !ok || b.Op != token.SUB {
+				return
+			}
+			if hasLen, k, encLen := tree(b.Y, 0); hasLen {
+				found = in
+				constPart = k
+				if encLen {
+					constPart++ // the length octets are computed: at least one
+				}
+			}
+		})
+		return found, constPart
+	}
 	for _, h := range []struct{ field, cname string }{{"PitToken", "pitTokenOverhead"}, {"CongestionMark", "congestionMarkOverhead"}} {
 		k := constVal(h.cname)
 		var reserve ssa.Instruction
+		if h.field == "PitToken" {
+			if r, kc := tokenLenReserve(); r != nil {
+				reserve, k = r, kc
+				c.Decide(kc >= 2, "R10.2", "token-reservation-covers-type-and-length", c.Pos(r), fmt.Sprintf("the PIT token reservation is len(token) plus %d (type and length octets)", kc), fmt.Sprintf("the room reserved for the PIT token header is len(token)+%d: the header also has a type and a length octet, the frame exceeds the MTU", kc))
+			} else if k >= 0 {
+				c.Viol("R10.2", "token-reservation-grows-with-token", p.Pos(send.Pos()), fmt.Sprintf("sendPacket reserves a constant %d bytes (%s) for the PIT token header, but the token it attaches is the downstream's own and can be up to 32 bytes long: with a longer token every full-size fragment exceeds the MTU, the transport drops it and the packet is never delivered", k, h.cname))
+			}
+		}
 		core.InstrsDeep(send, func(in ssa.Instruction) {
+			if reserve != nil && h.field == "PitToken" {
+				return
+			}
 			// effectiveMtu -= k, or reserved += k (subtracted from the MTU afterwards)
 			if b, ok := in.(*ssa.BinOp); ok && b.Op == token.SUB {
 				if kk, isC := core.ConstInt(b.Y); isC && kk == k {
@@ -342,8 +410,10 @@ func C10(c *core.Ctx) {
 	}
 	var reqs []req
 	if len(tag) >= 6 {
+		if constVal("pitTokenOverhead") >= 0 {
+			reqs = append(reqs, req{"pitTokenOverhead ≥ T(PitToken)+L+6", constVal("pitTokenOverhead"), need("PitToken", 6)})
+		}
 		reqs = append(reqs,
-			req{"pitTokenOverhead ≥ T(PitToken)+L+6", constVal("pitTokenOverhead"), need("PitToken", 6)},
 			req{"congestionMarkOverhead ≥ T(CongestionMark)+L+8", constVal("congestionMarkOverhead"), need("CongestionMark", 8)},
 			req{"lpPacketOverhead ≥ TL(LpPacket)+TL(Fragment)", constVal("lpPacketOverhead"), tlSize(tag["<LpPacket>"]) + tlSize(maxPkt) + tlSize(tag["Fragment"]) + tlSize(maxPkt)},
 		)
@@ -505,6 +575,183 @@ func C10(c *core.Ctx) {
 			}
 		}
 		c.Decide(okDel, "R10.3", "completed-message-removed", p.Pos(reas.Pos()), "a reassembled message is deleted from the partial-message store before it is returned", "a completed message stays in the partial-message store: a later message reusing the sequence number is corrupted and memory grows")
+	}
+
+	// ---- R10.10 "a packet that fits is sent as one frame": the decision to split (or, with
+	// fragmentation off, to drop) is not taken by comparing the packet with the payload room
+	// of a FRAGMENT alone — that room is the MTU minus headerOverhead, and headerOverhead
+	// charges Sequence/FragIndex/FragCount, which an unfragmented frame never carries.
+	{
+		fragTerms := false
+		if ch := p.Func("fw/face", "NDNLPLinkService", "computeHeaderOverhead"); ch != nil && ch.Blocks != nil {
+			for _, f := range core.EdgeFacts(ch, &core.Atom{Name: "fragmentation enabled", Match: func(cond ssa.Value) (int, int) {
+				if _, path := core.FieldPath(cond); len(path) >= 1 && path[len(path)-1] == "IsFragmentationEnabled" {
+					return 1, -1
+				}
+				return 0, 0
+			}}) {
+				if !f.Holds {
+					continue
+				}
+				core.Instrs(ch, func(in ssa.Instruction) {
+					if st, ok := in.(*ssa.Store); ok && (st.Block() == f.E.To || f.E.To.Dominates(st.Block())) {
+						if fa, ok := st.Addr.(*ssa.FieldAddr); ok {
+							if _, fld := core.FieldAddrName(fa); fld == ovhField {
+								fragTerms = true
+							}
+						}
+					}
+				})
+			}
+		}
+		derivesFromOverhead := func(v ssa.Value) bool {
+			seen := map[ssa.Value]bool{}
+			var walk func(v ssa.Value, d int) bool
+			walk = func(v ssa.Value, d int) bool {
+				v = core.StripConv(v)
+				if seen[v] || d > 8 {
+					return false
+				}
+				seen[v] = true
+				if _, ok := core.FieldOf(v, ovhField); ok {
+					return true
+				}
+				switch x := v.(type) {
+				case *ssa.BinOp:
+					return walk(x.X, d+1) || walk(x.Y, d+1)
+				case *ssa.Phi:
+					for _, e := range x.Edges {
+						if walk(e, d+1) {
+							return true
+						}
+					}
+				case *ssa.Call:
+					if cal := x.Call.StaticCallee(); cal != nil && cal.Blocks != nil && cal.Pkg == send.Pkg {
+						for _, rv := range core.ReturnedValues(x) {
+							if walk(rv, d+1) {
+								return true
+							}
+						}
+					}
+				}
+				return false
+			}
+			return walk(v, 0)
+		}
+		nDec := 0
+		var badAt ssa.Instruction
+		core.InstrsDeep(send, func(in ssa.Instruction) {
+			iff, ok := in.(*ssa.If)
+			if !ok {
+				return
+			}
+			cond, _ := core.StripNot(iff.Cond)
+			op, x, y, isCmp := core.Cmp(cond)
+			if !isCmp || op == token.EQL || op == token.NEQ {
+				return
+			}
+			lx, okx := core.LenOf(core.StripConv(x))
+			ly, oky := core.LenOf(core.StripConv(y))
+			isWire := func(v ssa.Value) bool {
+				_, path := core.FieldPath(v)
+				return len(path) > 0 && path[len(path)-1] == "Raw"
+			}
+			switch {
+			case okx && isWire(lx) && derivesFromOverhead(y), oky && isWire(ly) && derivesFromOverhead(x):
+				nDec++
+				badAt = in
+			}
+		})
+		if fragTerms && nDec > 0 {
+			c.Viol("R10.10", "fits-decision-charges-fragment-only-headers", c.Pos(badAt), "sendPacket decides 'does the packet fit into one frame?' by comparing its length with the payload room of a fragment (MTU − headerOverhead), and headerOverhead includes the Sequence, FragIndex and FragCount headers that only fragments carry (plus worst-case length octets): packets up to about 30 bytes below the MTU are sent as two frames, or dropped when fragmentation is disabled, although the single frame would fit")
+		} else {
+			c.Ok("R10.10", "fits-decision-charges-fragment-only-headers", p.Pos(send.Pos()), "the one-frame decision is not taken against the fragment payload room alone")
+		}
+	}
+
+	// ---- R10.12 the options of a running link service and the header overhead derived from
+	// them are written by SetOptions (management goroutine) and read by the send and
+	// receive goroutines: every access outside the constructor holds a lock of the link
+	// service (a torn overhead sizes fragments for headers that are not the ones attached)
+	{
+		_, heldF := core.EntryLocks(p, core.ModPath+"/fw/face")
+		nAcc, nWr := 0, 0
+		var unlocked []string
+		for _, fn := range p.FuncsIn(core.ModPath + "/fw/face") {
+			if strings.HasSuffix(p.File(fn.Pos()), "_test.go") || core.BaseName(fn) == "MakeNDNLPLinkService" {
+				continue
+			}
+			core.Instrs(fn, func(in ssa.Instruction) {
+				fa, ok := in.(*ssa.FieldAddr)
+				if !ok {
+					return
+				}
+				t, fld := core.FieldAddrName(fa)
+				if t != "NDNLPLinkService" || (fld != "options" && fld != ovhField) {
+					return
+				}
+				nAcc++
+				for _, r := range core.Refs(fa) {
+					if st, isSt := r.(*ssa.Store); isSt && st.Addr == ssa.Value(fa) {
+						nWr++
+					}
+				}
+				lockHeld := false
+				for l := range heldF[fn][in] {
+					if strings.Contains(l, "NDNLPLinkService.") {
+						lockHeld = true
+					}
+				}
+				if !lockHeld {
+					unlocked = append(unlocked, core.FuncName(fn))
+				}
+			})
+		}
+		if nWr > 0 && len(unlocked) > 0 {
+			sort.Strings(unlocked)
+			u := unlocked[:0]
+			for i, x := range unlocked {
+				if i == 0 || x != unlocked[i-1] {
+					u = append(u, x)
+				}
+			}
+			c.Viol("R10.12", "options-change-unsynchronised", "-", fmt.Sprintf("NDNLPLinkService.options / %s are rewritten while the face runs (%d stores outside the constructor) and accessed without a lock of the link service in %s: a packet sent during faces/update is fragmented for an overhead that does not match the headers attached (frames over the MTU are dropped by the transport), and the accesses race", ovhField, nWr, strings.Join(u, ", ")))
+		} else {
+			c.Ok("R10.12", "options-change-unsynchronised", "-", fmt.Sprintf("%d accesses, all under a lock of the link service (or the fields are never rewritten)", nAcc))
+		}
+		c.Floor("R10.12", "accesses to the link service's options / header overhead", nAcc, 5)
+	}
+
+	// ---- R10.11 a link service whose peer does not reassemble must not fragment: the
+	// internal transport's Receive hands every frame to the component as one packet (it
+	// contains no call of a reassembly routine), so the link service registered on it is
+	// created with fragmentation disabled
+	if reg := c.Fn("R10.11", "fw/face", "", "RegisterInternalTransport"); reg != nil {
+		rcv := c.Fn("R10.11", "fw/face", "InternalTransport", "Receive")
+		reassembles := false
+		if rcv != nil {
+			core.InstrsDeep(rcv, func(in ssa.Instruction) {
+				if ci, ok := in.(ssa.CallInstruction); ok {
+					if id, okID := core.Callee(ci.Common()); okID && strings.Contains(strings.ToLower(id.Name), "reassembl") {
+						reassembles = true
+					}
+				}
+				if fa, ok := in.(*ssa.FieldAddr); ok {
+					if _, f := core.FieldAddrName(fa); f == "FragIndex" || f == "FragCount" {
+						reassembles = true
+					}
+				}
+			})
+		}
+		off := false
+		core.Instrs(reg, func(in ssa.Instruction) {
+			if _, v, ok := storeToField(in, "NDNLPLinkServiceOptions", "IsFragmentationEnabled"); ok {
+				if b, isC := core.ConstBool(v); isC && !b {
+					off = true
+				}
+			}
+		})
+		c.Decide(reassembles || off, "R10.11", "internal-face-does-not-fragment", p.Pos(reg.Pos()), "the internal link service is created with fragmentation disabled (its receiver does not reassemble)", "the internal face's link service fragments packets that exceed its frame limit, but InternalTransport.Receive hands every frame to the component as one packet: a large Interest reaches management as truncated pieces")
 	}
 
 	// ---- R10.9 the number of fragments is not "quotient + 1": len/size + 1 pieces of at
